@@ -62,6 +62,10 @@ func verifKind(err error) uint64 {
 // plus the successor state. It never forks.
 func refStep(c *verifCfg, op *concOp, has bool, cur []byte) (match bool, nhas bool, ncur []byte) {
 	li := op.log
+	if rt.Param("dbfaults", 0) == 1 && op.kind == kOther {
+		// under injected storage faults any operation may fail with a storage error: no effect, no bytes
+		return op.out == nil, has, cur
+	}
 	if op.isGet {
 		m := rt.IteBool(has, rt.And(op.kind == kGetFound, rt.Eq(op.out, cur)), op.kind == kGetNotFound)
 		return m, has, cur
@@ -143,6 +147,9 @@ func VerifConcurrent() {
 		ops[i] = op
 	}
 	rt.ResetEvents()
+	if rt.Param("dbfaults", 0) == 1 {
+		rt.DBFaults = true // storage operations may fail while the operations overlap
+	}
 	for i := 0; i < k; i++ {
 		op := ops[i]
 		rt.Spawn(func() {
@@ -164,6 +171,7 @@ func VerifConcurrent() {
 		})
 	}
 	rt.RunThreads()
+	rt.DBFaults = false
 	rt.Assert(!rt.Deadlocked(), "C05/no-deadlock")
 	for _, e := range rt.Events {
 		if e.K == "Sign" && e.T >= 1 && e.T <= k {
